@@ -20,6 +20,17 @@ def main():
     import faulthandler
     import signal
     faulthandler.register(signal.SIGUSR1, all_threads=True)
+    # one check at a time per machine: checks regenerate Gen/*.lean in place and share the lake build directories, so two
+    # runs (in particular a run against a scratch tree, VERIF_REPO, next to a run against /repo) must not overlap.
+    # A run started by tools/seeded_run.py inherits the lock from its parent (VERIF_LOCK_HELD).
+    if not os.environ.get("VERIF_LOCK_HELD"):
+        try:
+            import fcntl
+            lock = open("/tmp/verif_check.lock", "w")
+            fcntl.flock(lock, fcntl.LOCK_EX)
+            os.environ["VERIF_LOCK_HELD"] = "1"
+        except OSError:
+            pass
     try:
         mod = importlib.import_module(f"props.{prop.lower()}")
     except BaseException as e:  # noqa: BLE001 - any failure to load the machinery is infrastructure
